@@ -468,6 +468,21 @@ def bare(x, y=os.sep):
     return x
 
 
+def route(mapping="src->dst", retries=3, sep=" -> ") -> int:
+    """
+    Route doc.
+
+    Args:
+      mapping (str): the mapping
+      retries (int): the retries
+      sep (str): the separator
+
+    Returns:
+      int: the count
+    """
+    return retries
+
+
 class Holder(object):
     """
     Holder doc.
@@ -594,7 +609,7 @@ def program_unchanged(style, type_annotations, no_word_wrap, fx=0):
     return ""
 
 
-ob("C07", "K6.program_unchanged.wrap", {"style": R(0, 2), "type_annotations": BOOL, "no_word_wrap": R(0, 0)}, enum=True, T=900, tpath=200, tier="thorough",
+ob("C07", "K6.program_unchanged.wrap", {"style": R(0, 2), "type_annotations": BOOL, "no_word_wrap": R(0, 0)}, enum=True, T=900, tpath=200,
    funcs=["cdd.compound.doctrans.doctrans"], bound="as K6.program_unchanged with word-wrap ON")(program_unchanged)
 ob("C07", "K6.program_unchanged", {"style": R(0, 2), "type_annotations": BOOL, "no_word_wrap": R(1, 1)}, enum=True, T=900, tpath=200,
    funcs=["cdd.compound.doctrans.doctrans", "cdd.compound.doctrans_utils.DocTrans", "cdd.compound.doctrans_utils.doctransify_cst",
@@ -603,16 +618,12 @@ ob("C07", "K6.program_unchanged", {"style": R(0, 2), "type_annotations": BOOL, "
    bound="the whole doctrans() on a scratch fixture module (function with defaults/*args/kw-only/**kwargs and a trailing comment, function with annotated keyword-only "
          "parameters, class with attribute, decorated method with a nested function) x target style x --type-annotations (solver-enumerated; word-wrap off here, on in the thorough twin): valid Python, "
          "AST identical once docstrings and annotations are erased, comment tokens kept in order, every line outside definition headers / docstrings / annotated assignments byte-identical")(program_unchanged)
-ob("C07", "K6.program_unchanged.fx2.quick", {"style": R(0, 2), "type_annotations": R(1, 1), "no_word_wrap": R(1, 1), "fx": R(1, 1)}, enum=True, T=900, tpath=200,
-   funcs=["cdd.compound.doctrans.doctrans"], bound="K6.program_unchanged.fx2 restricted to --type-annotations with word-wrap off (3 target styles)")(program_unchanged)
-ob("C07", "K6.program_unchanged.fx2", {"style": R(0, 2), "type_annotations": BOOL, "no_word_wrap": BOOL, "fx": R(1, 1)}, enum=True, T=1800, tpath=200, tier="thorough",
+ob("C07", "K6.program_unchanged.fx2", {"style": R(0, 2), "type_annotations": BOOL, "no_word_wrap": BOOL, "fx": R(1, 1)}, enum=True, T=1800, tpath=200,
    funcs=["cdd.compound.doctrans.doctrans"],
    bound="the whole doctrans() on a second scratch fixture (decorated and undecorated functions whose return annotation contains parentheses, async function with keyword-only "
          "parameters, multi-line header, trailing comment, class with computed base, nested class with an annotated method) x target style x --type-annotations x word-wrap: "
          "valid Python, AST identical once docstrings and annotations are erased, same comment tokens in the same order")(program_unchanged)
-ob("C07", "K6.program_unchanged.fx3.quick", {"style": R(0, 2), "type_annotations": R(1, 1), "no_word_wrap": R(1, 1), "fx": R(2, 2)}, enum=True, T=900, tpath=200,
-   funcs=["cdd.compound.doctrans.doctrans"], bound="K6.program_unchanged.fx3 restricted to --type-annotations with word-wrap off (3 target styles)")(program_unchanged)
-ob("C07", "K6.program_unchanged.fx3", {"style": R(0, 2), "type_annotations": BOOL, "no_word_wrap": BOOL, "fx": R(2, 2)}, enum=True, T=1800, tpath=200, tier="thorough",
+ob("C07", "K6.program_unchanged.fx3", {"style": R(0, 2), "type_annotations": BOOL, "no_word_wrap": BOOL, "fx": R(2, 2)}, enum=True, T=1800, tpath=200,
    funcs=["cdd.compound.doctrans.doctrans"],
    bound="the whole doctrans() on a third scratch fixture whose SOURCE docstrings are Google and NumPy style (keyword-only parameter, 'Defaults to' prose, Returns sections), a function "
          "without docstring whose default is an attribute expression, a class documented with an Attributes section, a method, and an async method without docstring x target style x "
